@@ -126,7 +126,7 @@ def run(ctx):
     # which bounds of a request are wildcards in the cache keys is decided from the axes translate_pixel reports as used: the
     # index roles of the dependence table (rows world, columns pixel) are a necessary condition here as well
     from .C15 import rule_e as _roles
-    ctx.guard(_roles, BorrowedCtx(ctx, {'C15.e': 'C16.f'}), ix)
+    ctx.guard(_roles, BorrowedCtx(ctx, {'C15.e': 'C16.f'}), ix, True)
 
 
 def _names(expr, func_node=None, _depth=0):
